@@ -10,3 +10,17 @@ theorem C15_gzipStored_every_prefix_rejected (ds : List Bytes) (hne : ds ≠ [])
     (m0 m1 m2 m3 xfl os : UInt8) (k : Nat) (hk : k < (gzipStored ds m0 m1 m2 m3 xfl os).length) :
     gunzip ((gzipStored ds m0 m1 m2 m3 xfl os).take k) = none :=
   C15_gunzip_truncated _ (gunzipR_gzipStored ds hne hl m0 m1 m2 m3 xfl os) (by omega) k hk
+
+/-- the same for the zlib form (`deflate` per RFC 7230) … -/
+theorem C15_zlibStored_every_prefix_rejected (ds : List Bytes) (hne : ds ≠ []) (hl : ∀ d ∈ ds, d.length ≤ 65535)
+    (ad : Bytes) (had : ad.length = 4)
+    (hsum : ad.foldl (fun acc b => acc * 256 + b.toNat) 0 = adler32 ds.flatten.toArray)
+    (k : Nat) (hk : k < ([0x78, 0x01] ++ storedEnc ds ++ ad : Bytes).length) :
+    zlibDecode (([0x78, 0x01] ++ storedEnc ds ++ ad : Bytes).take k) = none :=
+  C15_zlibDecode_truncated _ (zlibR_zlibStored ds hne hl ad had hsum) (by omega) k hk
+
+/-- … and for the bare deflate stream -/
+theorem C15_rawStored_every_prefix_rejected (ds : List Bytes) (hne : ds ≠ []) (hl : ∀ d ∈ ds, d.length ≤ 65535)
+    (k : Nat) (hk : k < (storedEnc ds).length) :
+    inflateRaw ((storedEnc ds).take k) = none :=
+  C15_inflateRaw_truncated _ (by simpa using C13_inflate_stored_blocks ds hne hl) (by omega) k hk
